@@ -72,7 +72,7 @@ func stressRun(base int, seed int64, par, ncalls int) []SEv {
 					if ok {
 						return 1, nil
 					}
-					return nil, errScripted
+					return nil, nextFailure()
 				})
 				res := "ok"
 				if _, rej := err.(*circuit.ErrOpenState); rej {
